@@ -85,6 +85,7 @@ fn pinned126(c: &Case126) -> bool {
         Op126::CalImg { hz } => [903_900_000, 868_100_000, 433_000_000].contains(hz),
         Op126::RxDoneSingle { .. } => false,
         Op126::Init { legacy_sync, dcdc, tcxo, retention_count } => *legacy_sync == 0x34 && !*dcdc && tcxo.is_none() && *retention_count == 0,
+        Op126::Reset => false,
     }
 }
 
@@ -511,6 +512,7 @@ pub fn replay(case: &Value, kf: &KnownFindings) -> Result<(), Failure> {
                 },
             }
         }
+        Some("sx126x-history") | Some("sx127x-history") => super::c13_hist::replay(case, kf),
         _ => Err(Failure::new("bad-replay", case.clone(), "unknown family")),
     }
 }
@@ -521,14 +523,19 @@ pub fn run(ctx: &mut Ctx) {
     // prior register contents) are swept densely but not completely
     ctx.exhaustive = false;
     let env = Env { thorough: ctx.tier == Tier::Thorough, seed: ctx.seed, kf: ctx.kf.clone() };
-    let us = units();
+    let mut us = units();
+    // history stage: operations on driver instances that have already been used (c13_hist.rs)
+    us.extend(super::c13_hist::hist_units());
+    // development aid: VERIF_C13_UNITS=<substring> runs only the work units whose name contains it
+    if let Ok(f) = std::env::var("VERIF_C13_UNITS") {
+        us.retain(|u| u.name.contains(&f));
+    }
     // samples: a few of the grid's cases, one per operation family (they are evaluated again by
     // the grid below; not counted twice)
     for c in [
         Case126 { chip: Chip126::Sx1262, rx_boost: false, seed: 7, op: Op126::Mod { sf: 11, bw_hz: 41_670, cr: 7, ldro: 1, hz: 868_100_000 } },
         Case126 { chip: Chip126::Stm32wlHp, rx_boost: false, seed: 9, op: Op126::Pa { dbm: 13, tx_prep: true, freq: Some(868_100_000) } },
         Case126 { chip: Chip126::Sx1261, rx_boost: true, seed: 0, op: Op126::Rx { kind: RxKind::Single(300) } },
-        Case126 { chip: Chip126::Sx1261, rx_boost: false, seed: 3, op: Op126::Pkt { preamble: 65535, implicit: true, len: 200, crc: false, iq: true } },
     ] {
         if check126(&c).is_ok() {
             ctx.stats.sample(c.to_json());
@@ -538,10 +545,18 @@ pub fn run(ctx: &mut Ctx) {
         Case127 { chip: Chip127::Sx1276, tx_boost: true, rx_boost: false, seed: 11, sc: Sc127::TxPower { dbm: 19, tx_prep: true } },
         Case127 { chip: Chip127::Sx1272, tx_boost: false, rx_boost: true, seed: 5, sc: Sc127::RxFlow { mp: Mp { sf: 10, bw_hz: 250_000, cr: 6, ldro: 0, hz: 868_500_000 }, pp: Pp { preamble: 8, implicit: false, len: 17, crc: true, iq: true }, legacy: 0x34, symbols: Some(400) } },
         Case127 { chip: Chip127::Sx1276, tx_boost: false, rx_boost: false, seed: 2, sc: Sc127::Mod { mp: Mp { sf: 9, bw_hz: 500_000, cr: 5, ldro: 0, hz: 915_000_000 }, armed: true } },
-        Case127 { chip: Chip127::Sx1276, tx_boost: false, rx_boost: false, seed: 4, sc: Sc127::Freq { hz: 867_900_000 } },
     ] {
         if check127(&c).is_ok() {
             ctx.stats.sample(c.to_json());
+        }
+    }
+    {
+        let (h6, h7) = super::c13_hist::sample_histories();
+        if super::c13_hist::check_hist126(&h6).is_ok() {
+            ctx.stats.sample(h6.to_json());
+        }
+        if super::c13_hist::check_hist127(&h7, &ctx.kf).is_ok() {
+            ctx.stats.sample(h7.to_json());
         }
     }
     ctx.parallel(|ti, n, st| {
@@ -552,7 +567,7 @@ pub fn run(ctx: &mut Ctx) {
         }
     });
     ctx.extra.insert("work_units".into(), json!(us.iter().map(|u| u.name.clone()).collect::<Vec<_>>().len()));
-    ctx.rule = "One evaluation = one (chip variant, operation or start flow, parameter tuple, prior-register seed) executed on lora-phy and on SWL2001 (smtc-modem-cores) with identical chip-side state, then compared: sx126x by exact MOSI byte stream per SPI transaction (written bytes + 0x00 for every byte read; for sync word / init only the state-changing transactions, reference read primed with the reset value); sx127x by executing both streams on a register-file model and comparing final registers 0x01-0x7F, FIFO writes, operating-mode sequence, under the allow-list in `allow_list`. Grids: SX1261/SX1262/STM32WL-HP/STM32WL-LP: every 100 Hz channel of 433.05-434.79/863-870/902-928 MHz + a stride over 137-1020 MHz + 1 Hz windows; all SF x BW x CR x LDRO; header x CRC x IQ x preambles {0,1,6,8,12,255,256,65535,random} x payload 0..255; 256 sync words; 65536 buffer base pairs; buffer writes 0..255 bytes; power -20..30 dBm x ramp class x frequency side of 400 MHz; IRQ masks for 10 radio modes; RX symbol timeout 0..65535 x gain; continuous / duty-cycle (24-bit periods) RX start; TX start; CAD SF5-12; image calibration bands; 15.3 RxDone workaround; init composite (DC-DC, DIO2, packet type, sync word, buffer base, retention list 0..4 entries). SX1276/SX1272: frequencies as above; SF6-12 x BW x CR x LDRO x errata-2.1 arming x band; packet params x payload writes 0..255; 256 sync words + every 16-bit word without single-byte form (refusal with zero traffic); FIFO bases; power -20..30 x RFO/PA_BOOST x ramp; idle IRQ masks; TX/RX/CAD start flows; RX symbol timeout 0..1023 and clamp above. Non-trivial (distinct by construction): parameter tuple / variant / prior state not pinned by the in-tree comparison tests.".into();
+    ctx.rule = "One evaluation = one (chip variant, operation or start flow, parameter tuple, prior-register seed) executed on lora-phy and on SWL2001 (smtc-modem-cores) with identical chip-side state, then compared: sx126x by exact MOSI byte stream per SPI transaction (written bytes + 0x00 for every byte read; for sync word / init only the state-changing transactions, reference read primed with the reset value); sx127x by executing both streams on a register-file model and comparing final registers 0x01-0x7F, FIFO writes, operating-mode sequence, under the allow-list in `allow_list`. Grids: SX1261/SX1262/STM32WL-HP/STM32WL-LP: every 100 Hz channel of 433.05-434.79/863-870/902-928 MHz + a stride over 137-1020 MHz + 1 Hz windows; all SF x BW x CR x LDRO; header x CRC x IQ x preambles {0,1,6,8,12,255,256,65535,random} x payload 0..255; 256 sync words; 65536 buffer base pairs; buffer writes 0..255 bytes; power -20..30 dBm x ramp class x frequency side of 400 MHz; IRQ masks for 10 radio modes; RX symbol timeout 0..65535 x gain; continuous / duty-cycle (24-bit periods) RX start; TX start; CAD SF5-12; image calibration bands; 15.3 RxDone workaround; init composite (DC-DC, DIO2, packet type, sync word, buffer base, retention list 0..4 entries). SX1276/SX1272: frequencies as above; SF6-12 x BW x CR x LDRO x errata-2.1 arming x band; packet params x payload writes 0..255; 256 sync words + every 16-bit word without single-byte form (refusal with zero traffic); FIFO bases; power -20..30 x RFO/PA_BOOST x ramp; idle IRQ masks; TX/RX/CAD start flows; RX symbol timeout 0..1023 and clamp above. Non-trivial (distinct by construction): parameter tuple / variant / prior state not pinned by the in-tree comparison tests. HISTORY STAGE (classes hist/*; one evaluation = one history executed on ONE lora-phy driver instance and ONE reference context, each on its own double, every step compared like a single operation: sx126x wire-canonical transactions of the step, sx127x chip-visible outcome of the step on register files that hold identical contents before every step; the first differing step is the failure and the saved case is the history up to it): steps are the operations above plus chip reset (NRESET through RadioKind::reset and an InterfaceVariant double that puts the double's registers back to their reset values - SX1276/SX1272 datasheet reset tables, FSK standby - while the reference gets a chip reset, a fresh driver context, LoRa packet type and standby), sleep warm/cold + wake-up + standby (SX126x cold start loses the register contents), init_lora; a reset or cold-start sleep is followed by the cold-start sequence lora-phy's LoRa layer always issues (wake, standby, init_lora, default TX power, idle IRQ set-up). Generated: (a) for every entry of a thinned grid (every operation kind x 1-40 parameter tuples, `pool126`/`pool127`), every prefix word of length 1..2 (quick) / 1..3 (thorough) over {same operation same parameters, same operation other parameters, chip reset, cold sleep+wake, warm sleep+wake}, all chip variants, both gain / PA / regulator configurations; (b) every ordered pair of grid entries directly after one another, with a chip reset and with a cold-start sleep in between; (c) random histories of 2..8 (quick) / 2..16 (thorough) raw steps (proptest, shrinking: repeat an earlier step exactly, repeat its kind with other parameters, reset, sleep+wake, grid entry, dense random frequency / modulation). Every history is non-trivial (no in-tree test compares a second call on a used driver), distinct histories counted by hash.".into();
     ctx.assumptions = vec![
         "allow-listed documented deviation: SX1276 errata 2.3 (AutomaticIFOn/RegIfFreq/RX frequency offset) is not applied by lora-phy for bandwidths below 62.5 kHz (documented in sx1276.rs); only those errata registers may differ in such cases, counted under excluded_known".into(),
         "MOSI idles at 0x00 (Semtech NOP) while the host reads: a trailing NOP write and a read byte are the same wire byte".into(),
@@ -562,6 +577,8 @@ pub fn run(ctx: &mut Ctx) {
         "sx127x prior register contents are random except cells where one driver normalises a field to its reset value instead of preserving it: RegDioMapping1/2 = 0x00 (reference keeps a shadow copy), RegInvertIQ reserved bits = 0x13, AgcAutoOn = 0, RegPaRamp upper bits and RegPaDac reserved bits at reset value, RegMaxPayloadLength = 0xFF, RegVersion = silicon value, RegOpMode = LoRa sleep/standby; RegOpMode[6:3] (register-page selectors) are not compared".into(),
         "sx127x allow-list (each value checked): errata 2.1 / 2.3 registers written with the modulation parameters instead of at SetRx (RX-only registers), RegInvertIQ/2 written with the packet parameters, RegLna G1 (+boost), RegOcp 100/240 mA, RegDioMapping1 DIO3 = ValidHeader in RX and DIO0 = none when idle, IRQ flag clears (0xFF), chip-ignored fields (MaxPower with PA_BOOST, RX-path IQ bit in TX and vice versa, payload-length registers the active header mode does not use, symbol timeout in continuous RX)".into(),
         "not compared (no sound alignment): sx127x image calibration (lora-phy relies on the automatic calibration and issues no traffic), TCXO set-up (no shared API; not in the property's operation list), continuous-wave TX, reads of received data/status (get_rx_payload, packet status, RSSI)".into(),
+        "history stage: before every step of an sx127x history the reference's chip is made to hold exactly what lora-phy's chip holds (the statement compares 'given the same register state'; after a judged step only allow-listed cells can differ); lora-phy's errata-2.1 flag (set by init_lora on silicon 0x12, never cleared) and the DIO3 = ValidHeader mapping that lora-phy's read-modify-write keeps after a reception set-up (the reference rewrites RegDioMapping1 from its shadow) are tracked as history context of the allow-list; a skipped register write is visible on sx127x only through a differing register file, i.e. after a chip reset, or through the FIFO / operating-mode sequences; on sx126x every skipped or added transaction is a difference".into(),
+        "history stage, reference side: after a chip reset the reference context is re-created (sx127x_t zeroed as at power-up) and brought to LoRa standby with set_pkt_type + set_standby; sx127x_init is not used (it writes GFSK-page defaults that lora-phy has no counterpart for); sleep steps always pass through standby (the reference writes RegOpMode without the LoRa bit, which only a sleep-to-sleep write would latch)".into(),
         "frequency domain: the chips' tuning range 137-1020 MHz (SX1272: 860-1020 MHz); start flows only on the parts' specified bands".into(),
     ];
     ctx.extra.insert("sx126x_documented_deviations".into(), json!([
